@@ -36,6 +36,13 @@
 //!                          `ok recs=<kernel recs> reclens=<d_reclen,..> calls=<getdents64 returns seen by
 //!                          tiny-std, signed> yields=<t<n>:<hexname>,..|-> rel=<0/1 per yield|->`;
 //!                          an `Err` item / failed open => `err <E>`.
+//!   readdirs <path> [<recs> <split>]  like readdir, but every GETDENTS64 tiny-std issues is answered by the
+//!                          harness from the kernel's own records (taken beforehand, raw bytes): split =
+//!                          `g<item>,..`, item `<n>` = the next n records in one answer (EINVAL if they do not
+//!                          fit the caller's buffer), `z` = 0, `e<errno>` = -errno; exhausted script = 0.
+//!                          After the first `None`/`Err` item `next()` is called three more times:
+//!                          `ok recs= reclens= calls= yields= rel= end=<done|err:E> more=<d|e<E>|y>,..`.
+//!                          Without recs/split (the twin run) it is `readdir`.
 //!   opts <rwatcn>          six 0/1 chars = read write append truncate create create_new; OpenOptions
 //!                          `.open("opts-probe")` in A under the log: `flags <decimal flags of the
 //!                          OPENAT/OPEN issued>` | `badopts` (no open syscall issued).  No dump.
@@ -698,6 +705,72 @@ fn install_script(nr: usize, len_idx: usize, script: Vec<usize>) {
     }));
 }
 
+/// one scripted answer of getdents64
+#[derive(Clone, Copy)]
+enum Split {
+    N(usize), // the next n records of the directory, stored back to back
+    Z,        // 0
+    E(usize), // -errno
+}
+
+fn parse_split(t: &str) -> Option<Vec<Split>> {
+    let rest = t.strip_prefix('g')?;
+    if rest.is_empty() {
+        return Some(Vec::new());
+    }
+    rest.split(',')
+        .map(|x| {
+            if x == "z" {
+                Some(Split::Z)
+            } else if let Some(e) = x.strip_prefix('e') {
+                if !e.is_empty() && e.bytes().all(|c| c.is_ascii_digit()) {
+                    e.parse().ok().filter(|e| (1..=4095).contains(e)).map(Split::E)
+                } else {
+                    None
+                }
+            } else if !x.is_empty() && x.bytes().all(|c| c.is_ascii_digit()) {
+                x.parse().ok().map(Split::N)
+            } else {
+                None
+            }
+        })
+        .collect()
+}
+
+/// every GETDENTS64 issued from now on is answered from `script` over the kernel's own records `raws` (taken with a
+/// 64 KiB buffer beforehand): `N(k)` copies the next k records into the caller's buffer and returns their length
+/// (EINVAL if they do not fit), `Z` / exhausted script returns 0, `E(e)` returns -e.  Nothing reaches the kernel.
+fn install_split(script: Vec<Split>, raws: Vec<Vec<u8>>) {
+    let mut q: VecDeque<Split> = script.into();
+    let mut pos = 0usize;
+    sc::shim::set_handler(Box::new(move |n, a, _| {
+        if n != sc::nr::GETDENTS64 {
+            return None;
+        }
+        match q.pop_front() {
+            None | Some(Split::Z) => Some(0),
+            Some(Split::E(e)) => Some(sc::shim::neg_errno(e)),
+            Some(Split::N(k)) => {
+                let take = k.min(raws.len() - pos);
+                let chunk = &raws[pos..pos + take];
+                pos += take;
+                let total: usize = chunk.iter().map(|r| r.len()).sum();
+                if total > a[2] {
+                    return Some(sc::shim::neg_errno(22));
+                }
+                let mut dst = a[1] as *mut u8;
+                for r in chunk {
+                    unsafe {
+                        std::ptr::copy_nonoverlapping(r.as_ptr(), dst, r.len());
+                        dst = dst.add(r.len());
+                    }
+                }
+                Some(total)
+            }
+        }
+    }));
+}
+
 /// run the code under test: panics become `panic`, the interposer is always left clean
 fn under_test<F: FnOnce() -> String>(f: F) -> String {
     let r = catch_unwind(AssertUnwindSafe(f));
@@ -710,7 +783,7 @@ fn under_test<F: FnOnce() -> String>(f: F) -> String {
 
 // ---------------------------------------------------------------------------------------------
 // readdir helpers
-fn raw_dents(pathz: &[u8]) -> Result<Vec<(u8, Vec<u8>, u16)>, i64> {
+fn raw_dents(pathz: &[u8]) -> Result<Vec<(u8, Vec<u8>, u16, Vec<u8>)>, i64> {
     const O_CLOEXEC: usize = 0o2000000;
     const O_DIRECTORY: usize = 0o200000;
     let at_fdcwd = (-100isize) as usize;
@@ -742,7 +815,7 @@ fn raw_dents(pathz: &[u8]) -> Result<Vec<(u8, Vec<u8>, u16)>, i64> {
             let end = (off + reclen as usize).min(n);
             let name_area = &buf[off + 19..end];
             let l = name_area.iter().position(|c| *c == 0).unwrap_or(name_area.len());
-            out.push((ty, name_area[..l].to_vec(), reclen));
+            out.push((ty, name_area[..l].to_vec(), reclen, buf[off..end].to_vec()));
             if reclen == 0 {
                 break;
             }
@@ -802,12 +875,12 @@ fn std_ft_num(ft: std::fs::FileType) -> u8 {
     }
 }
 
-fn readdir_tiny(pathz: &[u8], expect: Option<&str>) -> String {
+fn readdir_tiny(pathz: &[u8], expect: Option<&str>, split: Option<Vec<Split>>) -> String {
     let recs = match raw_dents(pathz) {
         Ok(r) => r,
         Err(e) => return format!("err {}", e),
     };
-    let actual = recs_str(recs.iter().map(|(t, n, _)| (*t, n.as_slice())));
+    let actual = recs_str(recs.iter().map(|(t, n, _, _)| (*t, n.as_slice())));
     if let Some(x) = expect {
         if x != actual {
             return format!("order-drift {}", actual);
@@ -818,21 +891,34 @@ fn readdir_tiny(pathz: &[u8], expect: Option<&str>) -> String {
     } else {
         recs.iter().map(|r| r.2.to_string()).collect::<Vec<_>>().join(",")
     };
+    let scripted = split.is_some();
+    let raws: Vec<Vec<u8>> = recs.iter().map(|r| r.3.clone()).collect();
     under_test(|| {
         sc::shim::start_log();
         let mut yields: Vec<(u8, Vec<u8>)> = Vec::new();
         let mut rel = String::new();
         let mut err: Option<String> = None;
+        let mut end = "done".to_string();
+        let mut more: Vec<String> = Vec::new();
         match Directory::open(ustr(pathz)) {
             Err(e) => err = Some(tiny_e(&e)),
             Ok(dir) => {
-                for item in dir.read() {
-                    match item {
-                        Err(e) => {
-                            err = Some(tiny_e(&e));
+                if let Some(sp) = split {
+                    install_split(sp, raws);
+                }
+                let mut it = dir.read();
+                loop {
+                    match it.next() {
+                        None => break,
+                        Some(Err(e)) => {
+                            if scripted {
+                                end = format!("err:{}", tiny_e(&e));
+                            } else {
+                                err = Some(tiny_e(&e));
+                            }
                             break;
                         }
-                        Ok(ent) => {
+                        Some(Ok(ent)) => {
                             let n = ft_num(ent.file_type());
                             match ent.file_unix_name() {
                                 Ok(u) => {
@@ -848,6 +934,17 @@ fn readdir_tiny(pathz: &[u8], expect: Option<&str>) -> String {
                         }
                     }
                 }
+                if scripted && err.is_none() {
+                    // `None`/`Err` must be final: three more calls
+                    for _ in 0..3 {
+                        more.push(match it.next() {
+                            None => "d".to_string(),
+                            Some(Err(e)) => format!("e{}", tiny_e(&e)),
+                            Some(Ok(_)) => "y".to_string(),
+                        });
+                    }
+                }
+                sc::shim::clear_handler();
             }
         }
         let log = sc::shim::take_log();
@@ -860,14 +957,18 @@ fn readdir_tiny(pathz: &[u8], expect: Option<&str>) -> String {
         if rel.is_empty() {
             rel.push('-');
         }
-        format!(
+        let mut out = format!(
             "ok recs={} reclens={} calls={} yields={} rel={}",
             actual,
             reclens,
             calls,
             recs_str(yields.iter().map(|(t, n)| (*t, n.as_slice()))),
             rel
-        )
+        );
+        if scripted {
+            out.push_str(&format!(" end={} more={}", end, more.join(",")));
+        }
+        out
     })
 }
 
@@ -1096,17 +1197,25 @@ fn handle(sb: &Sb, w: &[&str]) -> String {
             };
             finish(sb, res, stdres)
         }
-        ["readdir", p] | ["readdir", p, _] => {
+        ["readdir", p] | ["readdir", p, _] | ["readdirs", p] | ["readdirs", p, _, _] => {
             let p = match unhex(p) {
                 Some(p) => p,
                 None => return BAD.to_string(),
             };
             let expect = w.get(2).copied();
+            // `readdirs <path> <recs> <split>`: the getdents64 answers are scripted; without recs/split = `readdir`
+            let split = match w.get(3) {
+                Some(t) => match parse_split(t) {
+                    Some(s) => Some(s),
+                    None => return BAD.to_string(),
+                },
+                None => None,
+            };
             if !sb.guard(&[(&p, Kind::Opens)]) || !sb.enter_a() {
                 return BAD.to_string();
             }
             let pz = nul_terminated(&p);
-            let res = match catch_unwind(AssertUnwindSafe(|| readdir_tiny(&pz, expect))) {
+            let res = match catch_unwind(AssertUnwindSafe(|| readdir_tiny(&pz, expect, split))) {
                 Ok(s) => s,
                 Err(_) => {
                     sc::shim::reset();
